@@ -1386,3 +1386,140 @@ Proof.
   apply enc_tiso; auto.
   rewrite (tiso_enc _ _ (tiso_canon t1)), (tiso_enc _ _ (tiso_canon t2)), E. reflexivity.
 Qed.
+
+(* ------------------------------------------------------------------------------------ *)
+(* ... and isomorphic trees have equal canonical forms: the structural comparison tcmp   *)
+(* is a total order, so sorting by it is insensitive to the order of the children         *)
+(* ------------------------------------------------------------------------------------ *)
+
+Fixpoint lcmp (x y : list tree) : comparison :=
+  match x, y with
+  | [], [] => Eq
+  | [], _ :: _ => Lt
+  | _ :: _, [] => Gt
+  | a :: x', b :: y' => match tcmp a b with Eq => lcmp x' y' | c => c end
+  end.
+
+Lemma tcmp_unfold la ca lb cb :
+  tcmp (T la ca) (T lb cb) = match String.compare la lb with Eq => lcmp ca cb | c => c end.
+Proof. cbn [tcmp]. destruct (String.compare la lb); reflexivity. Qed.
+
+Lemma scmp_refl s : String.compare s s = Eq.
+Proof.
+  pose proof (String.compare_antisym s s) as H. destruct (String.compare s s); auto; discriminate.
+Qed.
+
+Lemma scmp_lt_trans a : forall b c,
+  String.compare a b = Lt -> String.compare b c = Lt -> String.compare a c = Lt.
+Proof.
+  induction a as [|x a IH]; intros [|y b] [|z c]; simpl; auto; try discriminate.
+  unfold Ascii.compare.
+  destruct (N.compare_spec (N_of_ascii x) (N_of_ascii y)) as [E1|E1|E1];
+    destruct (N.compare_spec (N_of_ascii y) (N_of_ascii z)) as [E2|E2|E2];
+    destruct (N.compare_spec (N_of_ascii x) (N_of_ascii z)) as [E3|E3|E3];
+    try lia; auto; try discriminate.
+  apply IH.
+Qed.
+
+Lemma tcmp_refl : forall a, tcmp a a = Eq.
+Proof.
+  induction a as [l cs IH] using tree_ind'. rewrite tcmp_unfold, scmp_refl.
+  induction IH as [|c cs Hc _ IHcs]; simpl; auto. rewrite Hc. exact IHcs.
+Qed.
+
+Lemma tcmp_antisym : forall a b, tcmp a b = CompOpp (tcmp b a).
+Proof.
+  induction a as [la ca IH] using tree_ind'. intros [lb cb]. rewrite !tcmp_unfold.
+  rewrite (String.compare_antisym la lb). destruct (String.compare lb la); simpl; auto.
+  revert cb. induction IH as [|x ca Hx _ IHca]; intros [|y cb]; simpl; auto.
+  rewrite (Hx y). destruct (tcmp y x); simpl; auto.
+Qed.
+
+Lemma lcmp_lt_trans ca :
+  Forall (fun a => forall b c, tcmp a b = Lt -> tcmp b c = Lt -> tcmp a c = Lt) ca ->
+  forall cb cc, lcmp ca cb = Lt -> lcmp cb cc = Lt -> lcmp ca cc = Lt.
+Proof.
+  induction 1 as [|x ca Hx _ IH]; intros [|y cb] [|z cc]; simpl; auto; try discriminate.
+  destruct (tcmp x y) eqn:E1; destruct (tcmp y z) eqn:E2; try discriminate; intros H1 H2.
+  - apply tcmp_eq in E1, E2. subst. rewrite tcmp_refl. eapply IH; eauto.
+  - apply tcmp_eq in E1. subst. rewrite E2. reflexivity.
+  - apply tcmp_eq in E2. subst. rewrite E1. reflexivity.
+  - rewrite (Hx y z E1 E2). reflexivity.
+Qed.
+
+Lemma tcmp_lt_trans : forall a b c, tcmp a b = Lt -> tcmp b c = Lt -> tcmp a c = Lt.
+Proof.
+  induction a as [la ca IH] using tree_ind'. intros [lb cb] [lc cc]. rewrite !tcmp_unfold.
+  destruct (String.compare la lb) eqn:E1; destruct (String.compare lb lc) eqn:E2;
+    try discriminate; intros H1 H2.
+  - apply String.compare_eq_iff in E1, E2. subst. rewrite scmp_refl. eapply lcmp_lt_trans; eauto.
+  - apply String.compare_eq_iff in E1. subst. rewrite E2. reflexivity.
+  - apply String.compare_eq_iff in E2. subst. rewrite E1. reflexivity.
+  - rewrite (scmp_lt_trans _ _ _ E1 E2). reflexivity.
+Qed.
+
+Definition leb_t (a b : tree) : bool := match tcmp a b with Gt => false | _ => true end.
+
+Lemma tinsert_cons a b l : tinsert a (b :: l) = if leb_t a b then a :: b :: l else b :: tinsert a l.
+Proof. unfold leb_t. simpl. destruct (tcmp a b); reflexivity. Qed.
+
+Lemma leb_t_total a b : leb_t a b = true \/ leb_t b a = true.
+Proof. unfold leb_t. rewrite (tcmp_antisym a b). destruct (tcmp b a); simpl; auto. Qed.
+
+Lemma leb_t_antisym a b : leb_t a b = true -> leb_t b a = true -> a = b.
+Proof.
+  unfold leb_t. rewrite (tcmp_antisym b a). destruct (tcmp a b) eqn:E; simpl; try discriminate.
+  intros _ _. apply tcmp_eq. exact E.
+Qed.
+
+Lemma leb_t_trans a b c : leb_t a b = true -> leb_t b c = true -> leb_t a c = true.
+Proof.
+  unfold leb_t. destruct (tcmp a b) eqn:E1; destruct (tcmp b c) eqn:E2; try discriminate; intros _ _.
+  - apply tcmp_eq in E1, E2. subst. rewrite tcmp_refl. reflexivity.
+  - apply tcmp_eq in E1. subst. rewrite E2. reflexivity.
+  - apply tcmp_eq in E2. subst. rewrite E1. reflexivity.
+  - rewrite (tcmp_lt_trans _ _ _ E1 E2). reflexivity.
+Qed.
+
+Lemma tinsert_comm a b l : tinsert a (tinsert b l) = tinsert b (tinsert a l).
+Proof.
+  induction l as [|c l IH].
+  - change (tinsert b []) with [b]. change (tinsert a []) with [a]. rewrite !tinsert_cons.
+    change (tinsert b []) with [b]. change (tinsert a []) with [a].
+    destruct (leb_t a b) eqn:E1, (leb_t b a) eqn:E2; auto.
+    + rewrite (leb_t_antisym _ _ E1 E2). reflexivity.
+    + destruct (leb_t_total a b); congruence.
+  - rewrite !(tinsert_cons _ c).
+    destruct (leb_t b c) eqn:Ebc, (leb_t a c) eqn:Eac; rewrite !tinsert_cons, ?Ebc, ?Eac.
+    + destruct (leb_t a b) eqn:E1, (leb_t b a) eqn:E2; auto.
+      * rewrite (leb_t_antisym _ _ E1 E2). reflexivity.
+      * destruct (leb_t_total a b); congruence.
+    + destruct (leb_t a b) eqn:E1.
+      * rewrite (leb_t_trans _ _ _ E1 Ebc) in Eac. discriminate.
+      * reflexivity.
+    + destruct (leb_t b a) eqn:E1.
+      * rewrite (leb_t_trans _ _ _ E1 Eac) in Ebc. discriminate.
+      * reflexivity.
+    + rewrite IH. reflexivity.
+Qed.
+
+Lemma tsort_perm_eq l l' : Permutation l l' -> tsort l = tsort l'.
+Proof. induction 1; simpl; try congruence. apply tinsert_comm. Qed.
+
+Lemma tiso_canon_eq t t' : tiso t t' -> canon t = canon t'.
+Proof.
+  intros h. induction h as [l cs cs' cs'' P F IH] using tiso_ind'.
+  simpl. f_equal.
+  assert (Em : map canon cs = map canon cs'').
+  { clear P F. induction IH; simpl; auto. rewrite H, IHIH. reflexivity. }
+  rewrite Em. apply tsort_perm_eq. apply Permutation_map. apply Permutation_sym. exact P.
+Qed.
+
+(* the canonical-form oracle of the check decides tree isomorphism *)
+Theorem canon_eqb_iff t1 t2 :
+  clean_tree_b t1 = true -> clean_tree_b t2 = true ->
+  (canon_eqb (canon t1) (canon t2) = true <-> tiso t1 t2).
+Proof.
+  intros C1 C2. split; [apply canon_eqb_sound; auto|].
+  intros H. unfold canon_eqb. rewrite (tiso_canon_eq _ _ H), tcmp_refl. reflexivity.
+Qed.
